@@ -701,18 +701,30 @@ class RequestHandler(BaseProtocol, Generic[_Request]):
             request._payload_writer = StreamWriter(self, self._loop)
             text = exc.text
             try:
-                resp = Response(
-                    status=exc.status, reason=exc.reason, text=text, headers=exc.headers
-                )
-            except UnicodeEncodeError:
-                # The text echoes a request value that could not be decoded.
-                assert text is not None
-                text = text.encode("ascii", "backslashreplace").decode("ascii")
-                resp = Response(
-                    status=exc.status, reason=exc.reason, text=text, headers=exc.headers
-                )
-            resp._cookies = exc._cookies
-            resp, reset = await self.finish_response(request, resp, start_time)
+                try:
+                    resp = Response(
+                        status=exc.status,
+                        reason=exc.reason,
+                        text=text,
+                        headers=exc.headers,
+                    )
+                except UnicodeEncodeError:
+                    # The text echoes a request value that could not be decoded.
+                    assert text is not None
+                    text = text.encode("ascii", "backslashreplace").decode("ascii")
+                    resp = Response(
+                        status=exc.status,
+                        reason=exc.reason,
+                        text=text,
+                        headers=exc.headers,
+                    )
+                resp._cookies = exc._cookies
+                resp, reset = await self.finish_response(request, resp, start_time)
+            except Exception as resp_exc:
+                # The response failed to start: answer like a failed handler
+                # (handle_error() raises if a part of it was sent already).
+                resp = self.handle_error(request, 500, resp_exc)
+                resp, reset = await self.finish_response(request, resp, start_time)
         except asyncio.CancelledError:
             raise
         except asyncio.TimeoutError as exc:
